@@ -302,15 +302,17 @@ def run_plan(w, cfg, faults, ref, tape, gens, then=None):
                     if snap is None:
                         V("snapshot", f"second-failure-snapshot-missing:{tag}", {"fn": f2.fn})
                         return
-                    got_kw = {k2: canon(v2) for k2, v2 in snap.kwargs.items()}
+                    outer2 = getattr(snap.function, "outer", {})
+                    got_kw = {outer2.get(k2, k2): canon(v2) for k2, v2 in snap.kwargs.items()}
                     if got_kw not in [dict(c.args) for c in raised2 if c.fn == f2.fn] or _exc_id(snap.exception) != planned2:
                         V("snapshot", f"function-snapshot-stale-after-second-failure:{tag}",
                           {"fn": f2.fn, "snapshot_kwargs": repr(got_kw)[:300], "snapshot_exception": repr(_exc_id(snap.exception)),
                            "second_failure": [repr(c) for c in raised2][:2]})
                         return
                     ps = p.error_snapshot
+                    outer3 = getattr(ps.function, "outer", {}) if ps is not None else {}
                     if ps is None or _exc_id(ps.exception) != planned2 or \
-                            {k2: canon(v2) for k2, v2 in ps.kwargs.items()} not in [dict(c.args) for c in raised2]:
+                            {outer3.get(k2, k2): canon(v2) for k2, v2 in ps.kwargs.items()} not in [dict(c.args) for c in raised2]:
                         V("snapshot", f"pipeline-snapshot-stale-after-second-failure:{tag}",
                           {"pipeline_snapshot": None if ps is None else [repr(_exc_id(ps.exception)), repr(ps.kwargs)[:200]],
                            "second_failure": [repr(c) for c in raised2][:2]})
@@ -363,7 +365,8 @@ def _check_snapshot(p, w, fired, err, root, V, raised_calls):
             return
         # the snapshot holds the keyword arguments of a failing invocation of that function
         failing = [dict(c.args) for c in raised_calls if c.fn == f.fn]
-        got_kw = {k2: canon(v2) for k2, v2 in snap.kwargs.items()}
+        outer = getattr(snap.function, "outer", {})
+        got_kw = {outer.get(k2, k2): canon(v2) for k2, v2 in snap.kwargs.items()}
         if snap.args or got_kw not in failing:
             V("snapshot", "snapshot-arguments-differ", {"fn": f.fn, "snapshot_kwargs": repr(got_kw)[:300], "failing": repr(failing)[:300]})
             return
